@@ -24,6 +24,9 @@ mod performance;
 mod score_state;
 mod strains;
 
+#[cfg(rosu_pp_verif)]
+pub mod verif;
+
 const PLAYFIELD_BASE_SIZE: Pos = Pos::new(512.0, 384.0);
 
 /// Marker type for [`GameMode::Osu`].
